@@ -81,6 +81,10 @@ def templates(tier):
     err("bad_value", [L("server {\n a 1\n\n k x"), H("v", 2, "alpha"), L("\n}")], 4)
     err("unterminated_quote", [L("server {\n k \""), H("v", 2, "alpha"), L("\n}")], 2)
     err("no_server", [L("log {\n}\n")], 0)
+    # leading blank / whitespace-only / comment lines count as lines
+    err("lead_blank_bad_value", [L("\n"), H("w", 2, "ws"), L("\n# c\nserver {\n a 1\n k x"), H("v", 2, "alpha"), L("\n}")], 6)
+    err("lead_blank_missing_value", [L("\n\nserver {\n "), H("k", 2, "alpha"), L("\n}")], 4)
+    err("lead_blank_include", [L("\n\t\nserver {\n include \"nope.conf\"\n}")], 4)
     err("include_unquoted", [L("server {\n include inc.conf\n}")], 2)
     err("include_missing_file", [L("server {\n include \"nope.conf\"\n}")], 2)
     err("include_missing_brace", [L("server {\n include \"inc.conf\"\n}")], None, files={"inc.conf": "route /a {\n file \"x\"\n\nroute /b {\n}"}, fname="inc.conf")
